@@ -39,7 +39,7 @@ theorem gateOk_iff (w : W) (p : Nat) (lf : LF) (d : Dg) :
 
 /-- the effect recorded by a step is that of `record` -/
 theorem written_processCmd (w : W) (p : Nat) (d : Dg) (lf : LF) (rf : RF) (hsrc : srcF w p d = some rf)
-    (hdst : dstF w d = some lf) (hp : panics d = false) :
+    (hdst : dstF w d = some lf) (hp : crashes w p lf rf d = false) :
     (processCmd w p d).1.written = (record w (applies w p lf d) d).written := by
   unfold processCmd
   simp only [hsrc, hdst, hp, Bool.false_eq_true, if_false]
@@ -62,10 +62,12 @@ theorem c03_effect_only_if (w : W) (p : Nat) (d : Dg) (hch : (processCmd w p d).
     | none =>
       unfold processCmd at hch
       simp only [hsrc, hdst] at hch
-      split at hch <;> simp [written_setPeer, written_bump] at hch
+      split at hch
+      · simp [written_setPeer] at hch
+      · split at hch <;> simp [written_setPeer, written_bump] at hch
     | some lf =>
       refine ⟨lf, rfl, ?_⟩
-      cases hp : panics d with
+      cases hp : crashes w p lf rf d with
       | true => simp [processCmd, hsrc, hdst, hp, written_setPeer] at hch
       | false =>
         rw [written_processCmd w p d lf rf hsrc hdst hp] at hch
@@ -80,23 +82,24 @@ theorem c03_effect_only_if (w : W) (p : Nat) (d : Dg) (hch : (processCmd w p d).
 /-- C03: a write that is not authorised changes nothing (data, registries), notifies nobody and is answered with
     exactly one error result, on the writer's connection -/
 theorem c03_denied_is_silent (w : W) (p : Nat) (d : Dg) (lf : LF) (rf : RF) (hsrc : srcF w p d = some rf)
-    (hdst : dstF w d = some lf) (hw : d.cls = .write) (hg : gateOk w p lf d = false) :
-    (processCmd w p d).1.written = w.written ∧ (processCmd w p d).2 = [(p, res d 1)] := by
-  have hpan : panics d = false := by simp [panics, hw]
+    (hdst : dstF w d = some lf) (hw : d.cls = .write) (hg : gateOk w p lf d = false) (hnc : NoCrash w d) :
+    (processCmd w p d).1.written = w.written ∧ (processCmd w p d).1.data = w.data ∧
+      (processCmd w p d).2 = [(p, res d 1)] := by
+  have hpan : crashes w p lf rf d = false := crashes_false w p lf rf d hnc
   have hresp : responses w p lf rf d = [res d 1] := by simp [responses, hw, hg]
   have hwr : wantsRead w p lf rf d = false := by simp [wantsRead, hw]
   have happ : applies w p lf d = false := by simp [applies, hg]
   unfold processCmd
-  simp [hsrc, hdst, hpan, hresp, hwr, happ, record, written_setPeer, written_bump, tag]
+  simp [hsrc, hdst, hpan, hresp, hwr, happ, record, written_setPeer, written_bump, tag, setPeer, bump]
 
 /-- C03: an authorised write of a function the feature holds is applied, every subscriber of the feature is
     notified once, and the writer gets exactly the requested acknowledgement -/
 theorem c03_accepted (w : W) (p : Nat) (d : Dg) (lf : LF) (rf : RF) (hsrc : srcF w p d = some rf)
     (hdst : dstF w d = some lf) (hw : d.cls = .write) (hg : gateOk w p lf d = true) (hnm : lf.nm = false)
-    (hf : lf.fds.contains d.fn = true) (hb : d.bad = false) :
+    (hf : lf.fds.contains d.fn = true) (hb : d.bad = false) (hnc : NoCrash w d) :
     (processCmd w p d).1.written = (d.dst, d.fn) :: w.written ∧
       (processCmd w p d).2 = notifs w d ++ (if d.ack then [(p, res d 0)] else []) := by
-  have hpan : panics d = false := by simp [panics, hw]
+  have hpan : crashes w p lf rf d = false := crashes_false w p lf rf d hnc
   have hf' : d.fn ∈ lf.fds := by simpa using hf
   have hresp : responses w p lf rf d = if d.ack then [res d 0] else [] := by simp [responses, hw, hg, hnm, hf', hb]
   have hwr : wantsRead w p lf rf d = false := by simp [wantsRead, hw]
